@@ -51,17 +51,26 @@ def sortWoke (w : List (Nat × Res)) : List (Nat × Res) :=
     lo ++ x :: hi) []
 
 def showObs (o : Obs) : String :=
-  s!"{showRes o.out.self}/{showWoke (sortWoke o.out.woke)}/{o.curI}.{o.curB}.{o.waitI}.{o.waitB}"
+  s!"{showRes o.out.self}/{showWoke (sortWoke o.out.woke)}/{o.curI}.{o.curB}.{o.waitI}.{o.waitB}" ++
+    (if o.fired.isEmpty then "" else "/f" ++ "+".intercalate (o.fired.map toString))
 
 def parseObs (s : String) : Option Obs :=
-  match s.splitOn "/" with
-  | [a, b, c] =>
+  let core (a b c : String) (fired : List Nat) : Option Obs :=
     match c.splitOn "." with
     | [w, x, y, z] => do
       let self ← parseRes a
       let woke ← parseWoke b
-      pure ⟨⟨self, woke⟩, ← w.toNat?, ← x.toNat?, ← y.toNat?, ← z.toNat?⟩
+      pure ⟨⟨self, woke⟩, ← w.toNat?, ← x.toNat?, ← y.toNat?, ← z.toNat?, fired⟩
     | _ => none
+  match s.splitOn "/" with
+  | [a, b, c] => core a b c []
+  | [a, b, c, f] =>
+    -- `f3+4`: tripwire contexts that fired during the operation
+    if f.startsWith "f" then
+      match ((f.drop 1).toString.splitOn "+").mapM (fun (e : String) => e.toNat?) with
+      | some fired => core a b c fired
+      | none => none
+    else none
   | _ => none
 
 def showRun (capI capB : Nat) (obs : List Obs) : String :=
@@ -112,7 +121,8 @@ def parseEvs (s : String) : Option (List Ev) :=
 def handle (line : String) : String :=
   let (inp, impl) := splitCase line
   match fields inp with
-  | ["dir", c, bd, bits, ops] =>
+  | "dir" :: c :: bd :: bits :: ops :: _late =>
+    -- an optional sixth field `late=0101` says which searches have a tripwire context; the model does not need it
     match c.toNat?, bd.toNat?, parseBits bits, parseOps ops with
     | some cap, some div, some dones, some ops =>
       let d0 := dInit cap div dones
